@@ -155,7 +155,10 @@ def cond_disjuncts(test: ast.expr) -> list[ast.expr]:
 
 
 def is_none_test(e: ast.expr) -> tuple[ast.expr, bool] | None:
-    """``X is None`` -> (X, True); ``X is not None`` -> (X, False)."""
+    """``X is None`` -> (X, True); ``X is not None`` -> (X, False); ``not (...)`` flips."""
+    if isinstance(e, ast.UnaryOp) and isinstance(e.op, ast.Not):
+        inner = is_none_test(e.operand)
+        return (inner[0], not inner[1]) if inner is not None else None
     if isinstance(e, ast.Compare) and len(e.ops) == 1 and isinstance(e.comparators[0], ast.Constant) and e.comparators[0].value is None:
         if isinstance(e.ops[0], ast.Is):
             return e.left, True
